@@ -243,6 +243,13 @@ def r1_publish(ctx, cfg):
                 # callee: creation -> Ok return
                 from .lib import assigns_variant
                 okb = set(assigns_variant(tb, "Ok"))
+                # a tail expression (`writer.flush()` / `file.sync_all().map_err(..)` as the last statement) returns the callee's Result without an
+                # Ok(..) literal: the block that assigns the return place from a call result is a success return as well
+                from .lib import return_holders
+                rh = return_holders(tb)
+                for cx in tb.calls:
+                    if cx.dest and cx.dest[0] in rh and cx.bb in tb.live_blocks() and not re.search(r"from_residual$", cx.name):
+                        okb |= set(tb.succ[cx.bb][:1])
                 if not ctx.anchor(rule, okb, "Ok return of %s" % tb.id):
                     continue
                 analyse_writer(ctx, rule, tb, cc, okb, "writer-for:" + b.id.split("::")[-1])
@@ -386,7 +393,38 @@ def r6_delete_after_replace(ctx, cfg):
     ctx.floor(rule, n, 1, "removals of a previous-generation state file in savers")
 
 
+READ_OPEN = re.compile(r"^std::fs::File::open$|^std::fs::read$|^std::fs::read_to_string$|^tokio::fs::file::File::open$|^tokio::fs::read::read$|^std::fs::OpenOptions::open$|^std::fs::metadata$|^std::path::Path::exists$|^std::path::Path::is_file$")
+
+
+def r7_loaders_skip_temp(ctx, cfg):
+    """a temp file found on disk always comes from a save that died before its rename: no loader of persistent state derives a path with the
+    temp suffix and reads / probes it (falling back to `<name>.tmp` when the real file is missing adopts a torn write)"""
+    rule = "C06.R7"
+    ctx.rule(rule, "in the state modules no load* / open* / new* / initialize* function reads, opens or probes a path derived with a 'tmp' suffix")
+    n = 0
+    for b in ctx.prog.bodies.values():
+        if b.krate not in cfg["krates"] or not re.search(cfg["state_modules"], b.file or ""):
+            continue
+        root = ctx.prog.bodies.get(b.root) if b.root else b
+        if not root or not re.match(r"(load|open|new|initialize|from_file|read_|reload)", root.item or ""):
+            continue
+        for c in b.calls:
+            if c.bb not in b.live_blocks() or not READ_OPEN.search(c.name) or not c.args:
+                continue
+            l = op_local(c.args[-1] if c.name.endswith("OpenOptions::open") else c.args[0])
+            if l is None:
+                continue
+            n += 1
+            sl = Slice(b, [l], transparent=True)
+            tmp = [o for o in sl.consts if isinstance(o.get("s"), str) and re.search(r"\btmp\b|\.tmp", o["s"])]
+            ctx.check(not tmp, rule, [b.id, "reads-temp", c.name.split("::")[-1]], "the loader does not touch temp-suffixed paths",
+                      "%s reads / probes a path built with a temp suffix (%s): a leftover temp file is by construction an interrupted save; adopting it on load "
+                      "serves a state that is neither the old nor the new one" % (ctx._stable(b.id), tmp[0]["s"] if tmp else ""), c.loc())
+    ctx.floor(rule, n, 3, "file reads / probes in loaders of the state modules")
+
+
 def run(ctx, cfg=CFG):
+    r7_loaders_skip_temp(ctx, cfg)
     r6_delete_after_replace(ctx, cfg)
     published = r1_publish(ctx, cfg)
     r3_in_place(ctx, cfg, published)
